@@ -32,7 +32,7 @@ func (x *Exec) finish(st *State, res []Val) {
 		env.cur = st.H
 	}
 	x.retPaths++
-	if len(x.coverPC) < 4 {
+	if len(x.coverPC) < 13 {
 		x.coverPC = append(x.coverPC, append([]string(nil), st.pc...))
 	}
 	for _, c := range x.spec.Ensures {
